@@ -611,6 +611,69 @@ let ctx_run (line : string) : string =
     String.concat "," (List.sort_uniq compare (List.map show outs))
   | _ -> failwith "ctx-run"
 
+(* ---------- typed JSON mapping (C08) ---------- *)
+let ty_of_dump (s : string) : ty =
+  let p = ref 0 in
+  let len = String.length s in
+  let peek () = if !p < len then s.[!p] else '\000' in
+  let adv () = incr p in
+  let expect c = if peek () = c then adv () else failwith "type dump" in
+  let is_hex c = (c >= '0' && c <= '9') || (c >= 'a' && c <= 'f') in
+  let hexrun () = let st = !p in while is_hex (peek ()) do adv () done; let h = String.sub s st (!p - st) in if h = "" then [] else bytes_of_hex h in
+  let rec ty () : ty =
+    let c = peek () in adv ();
+    match c with
+    | 'b' -> TBool | 'i' -> TInt | 'f' -> TFloat | 's' -> TString | 'o' -> TObject
+    | 'A' -> TArray (ty ()) | 'Q' -> TMaybe (ty ()) | 'D' -> TMap (ty ())
+    | 'N' -> let n = hexrun () in expect '.'; TAlias n
+    | 'S' -> expect '(';
+      let fs = ref [] in
+      if peek () = ')' then adv () else begin
+        let continue = ref true in
+        while !continue do
+          let n = hexrun () in expect ':'; let t = ty () in fs := (n, t) :: !fs;
+          if peek () = ',' then adv () else (expect ')'; continue := false)
+        done end;
+      TStruct (List.rev !fs)
+    | 'E' -> expect '(';
+      let ns = ref [] in
+      if peek () = ')' then adv () else begin
+        let continue = ref true in
+        while !continue do
+          ns := hexrun () :: !ns;
+          if peek () = ',' then adv () else (expect ')'; continue := false)
+        done end;
+      TEnum (List.rev !ns)
+    | _ -> failwith "type dump tag" in
+  ty ()
+
+(* line: <type dump> <name=dump,name=dump | -> <call|reply> <hex frame without NUL> *)
+let typed_check (tdump : string) (aliases : string) (kind : string) (frame : string) : string =
+  let t = ty_of_dump tdump in
+  let al = if aliases = "-" then [] else
+      List.map (fun kv -> let i = String.index kv '=' in
+                 (bytes_of_hex (String.sub kv 0 i), ty_of_dump (String.sub kv (i + 1) (String.length kv - i - 1))))
+        (String.split_on_char ';' aliases) in
+  let fr = bytes_of_hex frame in
+  let raw = (match kind with
+      | "call" -> (match decode_call fr with Some c -> c.c_params | None -> None)
+      | _ -> (match decode_struct reply_schema fr with Some (FRaw p :: _) -> p | _ -> None)) in
+  let fuel = nat_of_int 64 in
+  match raw with
+  | None -> (match t with TStruct [] -> "ok" | _ -> "bad:no-parameters")
+  | Some r ->
+    (match parse0 r with
+     | None -> "bad:json"
+     | Some j ->
+       (match decode_typed fuel al t j with
+        | None -> "bad:decode"
+        | Some v ->
+          if not (has_type fuel al t v) then "bad:type"
+          else (match encode_typed fuel al t v with
+              | None -> "bad:encode"
+              | Some j2 -> let out = encode_value j2 in
+                if out = r then "ok" else "diff " ^ hex_of_bytes out ^ " " ^ hex_of_bytes r)))
+
 let split_ws (l : string) : string list =
   List.filter (fun x -> x <> "") (String.split_on_char ' ' l)
 
@@ -671,6 +734,7 @@ let handle (cmd : string) (line : string) : string =
      | GOk (pk, t) -> "OK " ^ hex_of_bytes pk ^ " " ^ hex_of_bytes t
      | GParseErr -> "PARSEERR"
      | GPanic -> "PANIC")
+  | "typed-check", [t; al; kind; fr] -> typed_check t al kind fr
   | "wire-run", cap :: chunks :: ops -> wire_run (int_of_string cap) chunks ops
   | _ -> failwith ("bad case for " ^ cmd ^ ": " ^ line)
 
